@@ -92,17 +92,34 @@ func vDecompress(src []byte) ([]byte, error) { return src, nil }
 // ---- JSON/zstd are replaced by an identity store: the encoded form is a handle --------------
 
 var (
-	vQPRs  []*seq.QPR
-	vInfos []asyncSearchInfo
+	vQPRs    []*seq.QPR
+	vQPRAggs [][][]byte // per stored QPR: its aggregations as AggregatableSamples.MarshalJSON encodes them
+	vInfos   []asyncSearchInfo
 )
 
 func vMarshalQPR(q *seq.QPR) ([]byte, error) {
+	var raws [][]byte
+	for i := range q.Aggs {
+		raw, err := q.Aggs[i].MarshalJSON()
+		if err != nil {
+			return nil, err
+		}
+		raws = append(raws, raw)
+	}
+	vQPRAggs = append(vQPRAggs, raws)
 	vQPRs = append(vQPRs, q)
 	return []byte{'Q', byte(len(vQPRs) - 1)}, nil
 }
 func vUnmarshalQPR(b []byte, dst *seq.QPR) error {
 	src := vQPRs[b[1]]
 	*dst = seq.QPR{IDs: append(seq.IDSources(nil), src.IDs...), Total: src.Total, Errors: src.Errors}
+	for _, raw := range vQPRAggs[b[1]] {
+		var a seq.AggregatableSamples
+		if err := a.UnmarshalJSON(raw); err != nil {
+			return err
+		}
+		dst.Aggs = append(dst.Aggs, a)
+	}
 	if src.Histogram != nil {
 		dst.Histogram = map[seq.MID]uint64{}
 		for k, v := range src.Histogram {
@@ -125,6 +142,7 @@ func vUnmarshalInfo(b []byte, dst *asyncSearchInfo) error {
 type vAFrac struct {
 	info *frac.Info
 	ids  []seq.ID // descending
+	grp  []string // group token of each document (for the aggregations)
 }
 
 func (f *vAFrac) Info() *frac.Info                     { return f.info }
@@ -160,6 +178,23 @@ func (f *vAFrac) Search(p processor.SearchParams) (*seq.QPR, error) {
 	}
 	if p.WithTotal {
 		q.Total = uint64(total)
+	}
+	if len(p.AggQ) == 2 {
+		// what the aggregators return: "unique" = the group tokens as keys of empty containers,
+		// "count" = containers whose Total is the count
+		uniq := seq.AggregatableSamples{SamplesByBin: map[seq.AggBin]*seq.SamplesContainer{}}
+		cnt := seq.AggregatableSamples{SamplesByBin: map[seq.AggBin]*seq.SamplesContainer{}}
+		for k, id := range f.ids {
+			if rt.And(p.From <= id.MID, id.MID <= p.To) {
+				bin := seq.AggBin{Token: f.grp[k]}
+				if uniq.SamplesByBin[bin] == nil {
+					uniq.SamplesByBin[bin] = seq.NewSamplesContainers()
+					cnt.SamplesByBin[bin] = seq.NewSamplesContainers()
+				}
+				cnt.SamplesByBin[bin].Total++
+			}
+		}
+		q.Aggs = []seq.AggregatableSamples{uniq, cnt}
 	}
 	return q, nil
 }
@@ -229,7 +264,8 @@ func vRunCrash(op func()) (crashed bool) {
 func VerifAsync() {
 	n, nf := rt.Param("DOCS"), rt.Param("FRACS")
 	vFS = &vAFS{files: map[string][]byte{}}
-	vQPRs, vInfos, vWorkerCrashed, vASTs = nil, nil, false, nil
+	vQPRs, vQPRAggs, vInfos, vWorkerCrashed, vASTs = nil, nil, nil, false, nil
+	seq.VerifResetAggStore()
 	docs := make([]seq.ID, n)
 	for i := range docs {
 		docs[i] = seq.ID{MID: seq.MID(rt.NondetU64()), RID: seq.RID(rt.NondetU64())}
@@ -244,11 +280,16 @@ func VerifAsync() {
 		fr[i] = &vAFrac{info: &frac.Info{Path: "seq-db-0" + string([]byte{byte('1' + i)}), From: ^seq.MID(0), To: 0}}
 	}
 	dup := rt.Param("DUP")
+	hasDup := false
 	for i, d := range docs {
 		a := rt.Choose(nf)
+		g := []string{"ga", "gb"}[rt.Choose(2)]
 		fr[a].ids = append(fr[a].ids, d)
+		fr[a].grp = append(fr[a].grp, g)
 		if dup == 1 && i == 0 && nf > 1 && rt.Choose(2) == 1 { // a re-delivered document living in two fractions
 			fr[(a+1)%nf].ids = append(fr[(a+1)%nf].ids, d)
+			fr[(a+1)%nf].grp = append(fr[(a+1)%nf].grp, g)
+			hasDup = true
 		}
 	}
 	var list []frac.Fraction
@@ -260,7 +301,8 @@ func VerifAsync() {
 		fm.fracs = append(fm.fracs, &fracRef{instance: f})
 		list = append(list, f)
 	}
-	params := processor.SearchParams{From: 0, To: ^seq.MID(0), Limit: n + 1, Order: seq.DocsOrder(rt.Choose(2)), WithTotal: true, HistInterval: uint64(16 * rt.Choose(2))}
+	params := processor.SearchParams{From: 0, To: ^seq.MID(0), Limit: n + 1, Order: seq.DocsOrder(rt.Choose(2)), WithTotal: true, HistInterval: uint64(16 * rt.Choose(2)),
+		AggQ: []processor.AggQuery{{Func: seq.AggFuncUnique}, {Func: seq.AggFuncCount}}}
 
 	as := &AsyncSearcher{config: AsyncSearcherConfig{DataDir: "/async"}, mp: vAMapping{}, fracManager: fm,
 		requests: map[string]asyncSearchInfo{}, rateLimit: make(chan struct{}, 1), createDirOnce: &sync.Once{}}
@@ -334,6 +376,23 @@ func VerifAsync() {
 	}
 	for k, v := range res.QPR.Histogram {
 		rt.Assert(want.Histogram[k] == v, "no extra histogram bucket")
+	}
+	// aggregations: the same bins (for "unique" the bins are the answer), the same counts
+	rt.Assert(len(res.QPR.Aggs) == len(want.Aggs), "same number of aggregations")
+	if len(res.QPR.Aggs) == len(want.Aggs) {
+		for i := range want.Aggs {
+			w, g := want.Aggs[i].SamplesByBin, res.QPR.Aggs[i].SamplesByBin
+			for bin, wc := range w {
+				gc := g[bin]
+				rt.Assert(gc != nil, "every aggregation bin of the synchronous result is in the asynchronous one")
+				if gc != nil && !hasDup {
+					rt.Assert(gc.Total == wc.Total, "same count in the bin")
+				}
+			}
+			for bin := range g {
+				rt.Assert(w[bin] != nil, "no extra aggregation bin")
+			}
+		}
 	}
 	rt.Reach("end")
 }
